@@ -294,8 +294,8 @@ Print Assumptions C19_code_IsSafePathComponent_is_model.
    Together with C19_code_IsSafePathComponent_is_the_model (what the check accepts) and the theorems above (an
    accepted name stays inside the directory).  The skeleton drops data: that a refused name is not used is what
    the harness observes. ---- *)
-From SigP Require GenOrderCheck GenOrderProofs.
+From SigP Require GenOrderCheck GenOrderC19.
 Theorem C19_code_checks_names_before_file_operations : forall r : GenOrderCheck.rule,
   In r GenOrderCheck.c19_rules -> GenOrderCheck.rule_holds r.
-Proof. exact GenOrderProofs.co_C19_rules_hold. Qed.
+Proof. exact GenOrderC19.co_C19_rules_hold. Qed.
 Print Assumptions C19_code_checks_names_before_file_operations.
